@@ -91,7 +91,33 @@ pub fn drive(args: &HashMap<String, String>) {
     let seed = crate::util::seed_from_env() ^ args.get("salt").map(|s| crate::util::hash_str(s)).unwrap_or(0);
     let mut g = Gen::new(rand_chacha::ChaCha8Rng::seed_from_u64(seed), gen_opts(profile));
     let mut progs: Vec<(Program, Vec<V>)> = vec![];
-    for i in 0..n {
+    if profile == "ladder" {
+        // ParamLadder (DESIGN 6.2): the k-th of n parameters, directly and through a helper taking the same list
+        use crate::ast::{Expr, Helper, Pat};
+        let sizes: Vec<usize> = if n >= 100 { vec![1, 2, 7, 8, 9, 15, 16, 17, 31, 32, 33, 40] } else { vec![2, 8, 16, 17, 33] };
+        for nn in sizes {
+            let names: Vec<String> = (1..=nn).map(|i| format!("P{i}")).collect();
+            let pat = Pat::list(names.iter().map(|x| Pat::Var(x.clone())).collect(), Pat::Nil);
+            let env = V::list(&(1..=nn as i64).map(|i| V::int(1000 + i)).collect::<Vec<_>>());
+            let env2 = V::list(&(1..=nn as i64).map(|i| V::list(&[V::int(i), V::int(-i)])).collect::<Vec<_>>());
+            let ks: Vec<usize> = if n >= 100 { (1..=nn).collect() } else { vec![1, (nn + 1) / 2, nn] };
+            for k in ks {
+                let direct = Program { args: pat.clone(), helpers: vec![], body: Expr::Var(format!("P{k}")) };
+                let anames: Vec<String> = (1..=nn).map(|i| format!("A{i}")).collect();
+                let apat = Pat::list(anames.iter().map(|x| Pat::Var(x.clone())).collect(), Pat::Nil);
+                let helper = Program { args: pat.clone(),
+                    helpers: vec![Helper::Defun { name: "pick".to_string(), pat: apat.clone(), body: Expr::List(vec![Expr::Var(format!("A{k}")), Expr::Var("A1".to_string())]), inline: false }],
+                    body: Expr::Call("pick".to_string(), names.iter().map(|x| Expr::Var(x.clone())).collect(), None) };
+                let inl = Program { args: pat.clone(),
+                    helpers: vec![Helper::Defun { name: "pick".to_string(), pat: apat, body: Expr::Prim(4, vec![Expr::Var(format!("A{k}")), Expr::Var(format!("A{nn}"))]), inline: true }],
+                    body: Expr::Call("pick".to_string(), names.iter().map(|x| Expr::Var(x.clone())).collect(), None) };
+                for p in [direct, helper, inl] {
+                    progs.push((p, vec![env.clone(), env2.clone()]));
+                }
+            }
+        }
+    }
+    for i in 0..(if profile == "ladder" { 0 } else { n }) {
         // alternate small / full programs
         g.o = if i % 3 == 0 { let mut o = gen_opts(profile); o.depth = 2; o.max_helpers = 2; o } else { gen_opts(profile) };
         let p = g.program();
@@ -222,4 +248,59 @@ pub fn program_from_json(j: &Value) -> Program {
         o => panic!("bad helper {o}"),
     }).collect();
     Program { args: pat_from_json(&j["args"]), helpers, body: expr_from_json(&j["body"]) }
+}
+
+/// C02 on the shipped programs: optimisation off/on through the library entry point, run on a few generic
+/// argument trees.  Their macros are outside Chialisp.tla, so the trace carries an AST whose meaning is
+/// out of model (a lone sha256) and only the differential clauses are evaluated.
+pub fn drive_shipped(args: &HashMap<String, String>) {
+    let trace = args.get("trace").expect("--trace");
+    let cases = args.get("cases").expect("--cases");
+    let outp = args.get("out").expect("--out");
+    let envs: Vec<V> = vec![
+        V::nil(),
+        V::list(&[V::int(1), V::int(2), V::int(3), V::int(4), V::int(5), V::int(6)]),
+        V::list(&[V::list(&[V::int(1), V::int(2)]), V::list(&[V::int(3), V::int(4), V::int(5)]), V::int(7), V::list(&[V::list(&[V::int(9)])])]),
+        V::list(&[V::A(vec![0x11; 32]), V::int(100), V::list(&[V::int(51), V::A(vec![0x22; 32]), V::int(1000)]), V::int(0)]),
+        V::list(&[V::list(&[V::int(3), V::int(1), V::int(2)]), V::list(&[V::int(9), V::int(8)])]),
+    ];
+    let mut jobs = vec![];
+    let mut owner = vec![];
+    for rel in crate::corpus::SHIPPED {
+        if let Some((path, text, search)) = crate::corpus::load(rel) {
+            let stepping = if text.contains("*standard-cl-23.1*") || text.contains("*standard-cl-24*") { "cl231" } else if text.contains("*standard-cl-23*") { "cl23" }
+                else if text.contains("*standard-cl-22*") { "cl22" } else if text.contains("cl-21*") { "cl21" } else { "classic" };
+            for opt in [false, true] {
+                jobs.push(json!({"op": "compile", "text": text, "file": path, "search": search, "optimize": opt, "envs": envs.iter().map(|e| e.to_json()).collect::<Vec<_>>()}));
+                owner.push((rel.to_string(), format!("{}{}", stepping, if opt { "+O" } else { "" })));
+            }
+        }
+    }
+    let cfg = PoolCfg { batch: 1, timeout: Duration::from_secs(60), ..PoolCfg::default() };
+    let results = run_jobs(jobs, &cfg);
+    let mut rep = Report::default();
+    let mut tf = std::io::BufWriter::new(std::fs::File::create(trace).expect("trace"));
+    let mut cf = std::io::BufWriter::new(std::fs::File::create(cases).expect("cases"));
+    let opaque = json!({"args": ["pv", "ARGS"], "helpers": [], "body": ["prim", 11, []]});
+    let mut i = 0;
+    while i + 1 < owner.len() {
+        let (rel, b0) = &owner[i];
+        let (_, b1) = &owner[i + 1];
+        let mut per = serde_json::Map::new();
+        let mut raw = serde_json::Map::new();
+        for (b, r) in [(b0, &results[i]), (b1, &results[i + 1])] {
+            per.insert(b.clone(), outcome_json(r, envs.len()));
+            raw.insert(b.clone(), if let Some(e) = r.get("err") { json!({"comperr": e["msg"]}) } else if r.get("runs").is_some() { json!({"runs": r["runs"]}) } else { r.clone() });
+        }
+        rep.evaluations += 1;
+        rep.traces += 1;
+        if results[i].get("runs").map(|r| r.as_array().unwrap().iter().any(|o| o[0] == "ok")).unwrap_or(false) {
+            rep.nontrivial(rel);
+        }
+        writeln!(tf, "{}", json!({"ast": opaque, "envs": envs.iter().map(|e| e.to_json()).collect::<Vec<_>>(), "obs": per, "zero_leading": false})).unwrap();
+        writeln!(cf, "{}", json!({"source": format!("shipped:{rel}"), "envs": envs.iter().map(|e| e.show()).collect::<Vec<_>>(), "obs": raw,
+            "features": "Features { shipped: true }", "ast": opaque, "envs_json": envs.iter().map(|e| e.to_json()).collect::<Vec<_>>()})).unwrap();
+        i += 2;
+    }
+    rep.write(outp);
 }
